@@ -54,9 +54,10 @@ RowsOf(its) ==
 SheetOut(sh) ==
     [rows    |-> RowsOf(items[sh]),
      merges  |-> [i \in 1..Len(mseq[sh]) |->
-                    [rect |-> mseq[sh][i],
+                    [rect |-> mseq[sh][i], rows |-> SpanRows(mseq[sh][i]), cols |-> SpanCols(mseq[sh][i]),
                      ref |-> RangeRef(mseq[sh][i][1], mseq[sh][i][2], mseq[sh][i][3], mseq[sh][i][4])]],
-     cells   |-> grid[sh],
+     cells   |-> Shown(sh),
+     extent  |-> Extent(sh),
      covered |-> {[c |-> p[1], r |-> p[2]] : p \in CoveredSet(sh)},
      bounds  |-> Bounds(sh)]
 
